@@ -100,3 +100,24 @@ def write_json(path, obj):
 
 def log(*a):
     print(*a, file=sys.stderr, flush=True)
+
+
+def claim_target_dir(target_dir):
+    """cargo decides freshness by (workspace-relative path, mtime): a target dir last used for ANOTHER checkout of the crate whose
+    files are older than the cached artifacts would be reused as-is (observed with cargo kani: `Finished` without `Compiling`,
+    stale verdicts).  So remember which tree a target dir was built from, and when it changes drop the crate's own
+    fingerprints (dependencies stay cached)."""
+    import glob
+    import shutil
+    os.makedirs(target_dir, exist_ok=True)
+    marker = os.path.join(target_dir, '.verif_repo')
+    here = os.path.realpath(REPO)
+    try:
+        last = open(marker).read().strip()
+    except Exception:
+        last = None
+    if last != here:
+        for fp in glob.glob(os.path.join(target_dir, '**', '.fingerprint', 'ctap-types-*'), recursive=True):
+            shutil.rmtree(fp, ignore_errors=True)
+        with open(marker, 'w') as f:
+            f.write(here + '\n')
